@@ -558,8 +558,39 @@ if a.tier == "exhaustive":
                 emit("newmock 1 %d" % Cm); emit("mprint 0 0 %s" % "".join(h for h, _ in cl))
                 for ln in [-1, 0] + sorted(inside + other): emit("mdisp %d 0 %d %d" % (ln, col, width))
                 emit("end"); nm += 1
-    info = {"mock_display_histories": nm}
-    info.update({"exhaustive_bound": "all sequences of <=3 (and a seed-selected quarter of the length-4) operations over a 13-letter lifecycle alphabet on root>1>2, 3 sibling of 1, one pen, one self-unref key handler; each followed by flush and end; tickit_mockterm_get_display_text with every buffer length (short of the known exact-fill overflow) for every span of five fixed lines of multi-byte, double-width and combining cells", "histories": nh})
+    # the terminal's input entry points: every sequence of <= 3 operations with a key handler on the terminal that quits
+    alpha_t = ["tpush E", "tpush a", "twait", "twaitv a", "tread E", "tcheck", "tick 60", "tunref", "tref", "key", "unref 0", "tpush P1,1 R1,1"]
+    nt = 0
+    for k in range(1, 4):
+        for seq in itertools.product(alpha_t, repeat=k):
+            esc = False; ok = True
+            for o in seq:      # an ESC is followed by nothing but `a` (Model/LifeTop.lean `decode`)
+                if esc and o in ("tread E", "tpush E", "tpush P1,1 R1,1"): ok = False
+                if o.endswith(" E"): esc = True
+                elif o in ("tpush a", "twaitv a", "twait"): esc = False
+            if not ok: continue
+            emit("newin 6 12"); emit("win 0 0 0 2 4 0"); emit("tbind key %d u1 u0 t" % (len(seq) % 2))
+            for o in seq: emit(o)
+            emit("end"); nt += 1
+    # the toplevel instance: every sequence of <= 3 operations on root > 1 > 2 (the last reference to the instance is not
+    # dropped while the application holds the root window: known finding rootwin_outlives_tickit)
+    alpha_i = ["unref 0", "unref 1", "unref 2", "iunref", "iref", "ilater u2", "ilater", "itimer 0 c1", "itick", "itick a", "raise 1", "flush", "tunref", "icancel 0"]
+    ni = 0
+    for k in range(1, 4):
+        for seq in itertools.product(alpha_i, repeat=k):
+            rr, ir, ok = 1, 1, True
+            for o in seq:
+                if o == "unref 0" and rr > 0: rr -= 1
+                elif o == "iref" and ir > 0: ir += 1
+                elif o == "iunref" and ir > 0:
+                    if ir == 1 and rr > 0: ok = False
+                    ir -= 1
+            if not ok: continue
+            emit("newtop 6 12"); emit("win 0 0 0 4 8 0"); emit("win 1 0 0 2 4 0"); emit("bind 2 key 0 u2")
+            for o in seq: emit(o)
+            emit("end"); ni += 1
+    info = {"mock_display_histories": nm, "terminput_histories": nt, "toplevel_histories": ni}
+    info.update({"exhaustive_bound": "all sequences of <=3 (and a seed-selected quarter of the length-4) operations over a 13-letter lifecycle alphabet on root>1>2, 3 sibling of 1, one pen, one self-unref key handler; each followed by flush and end; tickit_mockterm_get_display_text with every buffer length (short of the known exact-fill overflow) for every span of five fixed lines of multi-byte, double-width and combining cells; all sequences of <=3 operations over a 12-letter alphabet of terminal input calls with a quitting key handler on the terminal, and over a 14-letter alphabet of toplevel-instance calls on root>1>2", "histories": nh})
 else:
     scale = 1 if a.tier == "quick" else 5
     fams = {"tree": 700, "handlers": 700, "foreign": 400, "objects": 400, "pens": 400, "copyout": 400, "terminput": 500, "toplevel": 500}
